@@ -88,6 +88,7 @@ fn main() {
         // directed programs that are part of every run
         let mut fixed: Vec<Recipe> = Recipe::always_dangling();
         fixed.extend(Recipe::always_diverge());
+        fixed.extend(Recipe::always_isolated());
         let n_fixed = fixed.len();
         for i in 0..n_inputs + n_fixed {
             let rc = if i < n_fixed {
@@ -96,7 +97,7 @@ fn main() {
                 match rng.below(14) {
                     0..=6 => Recipe::random_program(&mut rng),
                     7 => Recipe::random_shared(&mut rng),
-                    8 => Recipe::random_diverge(&mut rng),
+                    8 => if rng.chance(1, 2) { Recipe::random_diverge(&mut rng) } else { Recipe::random_isolated(&mut rng) },
                     _ => Recipe::random_gadget(&mut rng),
                 }
             };
